@@ -344,10 +344,17 @@ async def process_resource_causes(
     consistency_is_achieved = consistency_time is None  # i.e. preexisting consistency
     if changing_cause is not None and changing_cause.reason == causes.Reason.GONE:
         consistency_is_achieved = True  # for the final goodbye log message
-    if consistency_is_required and not consistency_is_achieved and not patch and consistency_time:
+    if consistency_is_required and not consistency_is_achieved and consistency_time:
         loop = asyncio.get_running_loop()
-        unslept = await aiotime.sleep(consistency_time - loop.time(), wakeup=stream_pressure)
-        consistency_is_achieved = unslept is None  # "woke up" vs. "timed out"
+        if consistency_time <= loop.time():
+            # The waiting time is over already: fake the consistency whether or not a patch has
+            # been accumulated. Otherwise, with a patch accumulated on every cycle (e.g. by
+            # an on-event handler's result), the sleep below is never taken, so the timeout never
+            # comes, and the state-dependent handlers starve while the awaited version is missing.
+            consistency_is_achieved = True
+        elif not patch:
+            unslept = await aiotime.sleep(consistency_time - loop.time(), wakeup=stream_pressure)
+            consistency_is_achieved = unslept is None  # "woke up" vs. "timed out"
     consistency_is_achieved = consistency_is_achieved and patch_initially_empty
     if consistency_is_required and not consistency_is_achieved:
         return list(spawning_delays), False  # exit to PATCHing and/or re-iterating over new events.
